@@ -1,0 +1,22 @@
+//! verification hook: snapshot of a `SyncTestSession` (child module, read-only)
+use super::SyncTestSession;
+use crate::verif::SyncTestSnap;
+use crate::Config;
+
+impl<T: Config> SyncTestSession<T> {
+    /// Read-only projection of the session's internal state.
+    pub fn verif_snapshot(&self) -> SyncTestSnap {
+        let mut checksum_history: Vec<_> = self.checksum_history.keys().copied().collect();
+        checksum_history.sort_unstable();
+        let mut pending_local: Vec<_> = self.local_inputs.keys().copied().collect();
+        pending_local.sort_unstable();
+        SyncTestSnap {
+            num_players: self.num_players,
+            max_prediction: self.max_prediction,
+            check_distance: self.check_distance,
+            checksum_history,
+            pending_local,
+            sync: self.sync_layer.verif_snap(),
+        }
+    }
+}
